@@ -1,7 +1,7 @@
 (* C28: keep-alive connections stay in sync.  Property theorems only.
    Model: KeepAlive.v (conn.serve loop, Expect handling, body draining) over the response writer of Http1Resp.v. *)
 From Coq Require Import List ZArith Bool.
-From Bfe Require Import lib.Val lib.Bytes model.Http1Resp model.KeepAlive run.RunC28 proofs.KeepAliveProofs.
+From Bfe Require Import lib.Val lib.Bytes model.Http1Resp model.KeepAlive run.RunC27 run.RunC28 proofs.Http1RespProofs proofs.KeepAliveProofs.
 Import ListNotations.
 Open Scope Z_scope.
 
@@ -57,3 +57,32 @@ Theorem C28_old_expect_without_continue_refuted :
     prop_C28 i (old_output_of i) = false /\ prop_C28 i (run_C28 i) = true.
 Proof. exact old_expect_refuted. Qed.
 Print Assumptions C28_old_expect_without_continue_refuted.
+
+(* The same for the second /repo fix (95fd21d): a POST whose chunked body starts with a 17-hex-digit size line
+   directly followed by a complete "GET /evil" request.  The old code ignored the error of draining the body, kept
+   the connection alive and answered the embedded request (200, X-Req: evil): request smuggling.  The fixed
+   code closes the connection after the response to the POST. *)
+Theorem C28_old_corrupt_chunk_refuted :
+  exists i, dec_C28 i <> None /\
+    prop_C28 i (old_output_of i) = false /\ prop_C28 i (run_C28 i) = true.
+Proof. exact old_corrupt_chunk_refuted. Qed.
+Print Assumptions C28_old_corrupt_chunk_refuted.
+
+(* Central statement, sub-language: the client's requests are self-delimiting (frames), of kind 0 (well formed and
+   complete, bodies with Content-Length or chunked framing of any content), without an Expect field, and each is
+   handled by a module response (src 0; any body-consumption mode) that echoes the request id, has a well-formed
+   header and a consistent supplier, status 200..599 (good_req).  Then the executable property prop_C28 - the
+   one evaluated on the real server's bytes on every run - accepts the bytes the modelled conn.serve loop writes:
+   every response is complete, in request order, names its request, and the next response starts exactly where
+   the previous one ends (this uses C27_parses_as_one for every response with the rest of the pipeline as tail). *)
+Theorem C28_prop_of_model_partial :
+  forall i crs ss rqs,
+  dec_C28 i = Some (crs, ss) -> Forall2 frames (map c_bytes crs) rqs -> Forall2 (good_req ss) crs rqs ->
+  prop_C28 i (run_C28 i) = true.
+Proof. exact prop_of_model_C28_partial. Qed.
+Print Assumptions C28_prop_of_model_partial.
+
+(* Non-vacuity: the POST whose body is a complete GET request followed by a real GET, answered by module responses. *)
+Example C28_prop_of_model_nonvacuous :
+  Forall2 frames (map c_bytes ex_crs) [ex_r1; ex_r2] /\ Forall2 (good_req ex_scripts) ex_crs [ex_r1; ex_r2].
+Proof. exact prop_of_model_C28_nonvacuous. Qed.
